@@ -588,6 +588,28 @@ impl Sim {
         let payout = if staked > 0 { p.treasury as u128 / staked } else { 0 };
         (1 + payout, p.avg_fee_per_byte as u128)
     }
+    /// largest still-unspent output of the block that the next block rebroadcasts
+    pub fn leaving_max_amount(&self) -> u128 {
+        let next = self.tip().id + 1;
+        if next <= self.gp + 1 {
+            return 0;
+        }
+        match self.chain.iter().find(|b| b.id == next - self.gp - 1) {
+            Some(e) => e
+                .transactions
+                .iter()
+                .flat_map(|t| t.to.iter())
+                .filter(|s| s.amount > 0 && self.node.blockchain.utxoset.get(&s.get_utxoset_key()).copied().unwrap_or(false))
+                .map(|s| s.amount as u128)
+                .max()
+                .unwrap_or(0),
+            None => 0,
+        }
+    }
+    /// 5 % of the tip's treasury as the code computes it: the most the next block may pay out
+    pub fn payout_limit(&self) -> u128 {
+        (self.tip().treasury as f64 * 0.05) as u64 as u128
+    }
 }
 
 // ------------------------------------------------------------------ C13 oracle
@@ -598,14 +620,61 @@ pub struct AtrReport {
     pub rebroadcast: usize,
     pub dust: usize,
     pub triples: usize,
+    pub capped: bool,
+    /// 1 + limit / volume when the cap applies
+    pub capped_factor: u128,
+    /// what the multiplier asks the treasury to pay (before the cap)
+    pub payout_asked: u128,
+    /// NFT groups among the rebroadcast / too-small items
+    pub triples_rebroadcast: usize,
+    pub triples_dust: usize,
     pub failures: Vec<String>,
     /// failures that belong to known classes: (finding id, text)
     pub known: Vec<(String, String)>,
 }
 
+struct LeavingItem<'a> {
+    payload: &'a Slip,
+    group: Vec<&'a Slip>,
+    triple: bool,
+    fee: u128,
+}
+
+/// the still-unspent value outputs of the block that left the window, NFT groups together
+fn leaving_items<'a>(e: &'a Block, utxo_before: &BTreeSet<Vec<u8>>, fpb: u128) -> Vec<LeavingItem<'a>> {
+    let mut items = vec![];
+    for tx in &e.transactions {
+        let fee = tx.get_serialized_size() as u128 * fpb;
+        let mut i = 0;
+        while i < tx.to.len() {
+            let s = &tx.to[i];
+            // an NFT group: bound, payload, bound — travels together
+            let triple = s.slip_type == SlipType::Bound
+                && i + 2 < tx.to.len()
+                && tx.to[i + 1].slip_type != SlipType::Bound
+                && tx.to[i + 2].slip_type == SlipType::Bound;
+            let (payload, group): (&Slip, Vec<&Slip>) =
+                if triple { (&tx.to[i + 1], vec![&tx.to[i], &tx.to[i + 1], &tx.to[i + 2]]) } else { (s, vec![s]) };
+            i += if triple { 3 } else { 1 };
+            let unspent = group.iter().all(|g| g.amount == 0 || utxo_before.contains(&g.get_utxoset_key().to_vec()));
+            if !unspent || payload.amount == 0 {
+                continue;
+            }
+            if !triple && payload.slip_type == SlipType::Bound {
+                // a stray bound slip carries no value
+                continue;
+            }
+            items.push(LeavingItem { payload, group, triple, fee });
+        }
+    }
+    items
+}
+
 /// Evaluates the C13 statement for the accepted block `b` (now the tip): `utxo_before` =
 /// spendable entries before the block, `mult`/`fpb` = multiplier and fee per byte the
-/// code defines (from the parent header), `e` = the block that left the window.
+/// code defines (from the parent header), `limit` = 5 % of the parent's treasury (if the
+/// payouts exceed it the code pays value * (1 + limit / volume) and waives the fee),
+/// `e` = the block that left the window.
 pub fn atr_oracle(
     sim: &mut Sim,
     b: &Block,
@@ -613,117 +682,113 @@ pub fn atr_oracle(
     utxo_before: &BTreeSet<Vec<u8>>,
     mult: u128,
     fpb: u128,
+    limit: u128,
 ) -> AtrReport {
     let mut rep = AtrReport::default();
     let atrs: Vec<&Transaction> = b.transactions.iter().filter(|t| t.transaction_type == TransactionType::ATR).collect();
     let mut used = vec![false; atrs.len()];
     let utxo_after: BTreeSet<Vec<u8>> = sim.node.blockchain.utxoset.iter().filter(|(_, f)| **f).map(|(k, _)| k.to_vec()).collect();
     let mut expected_fees_atr: u128 = 0;
-    if let Some(e) = e {
-        for tx in &e.transactions {
-            let size = tx.get_serialized_size() as u128;
-            let fee = size * fpb;
-            let mut i = 0;
-            while i < tx.to.len() {
-                let s = &tx.to[i];
-                // an NFT group: bound, payload, bound — travels together
-                let triple = s.slip_type == SlipType::Bound
-                    && i + 2 < tx.to.len()
-                    && tx.to[i + 1].slip_type != SlipType::Bound
-                    && tx.to[i + 2].slip_type == SlipType::Bound;
-                let (payload, group): (&Slip, Vec<&Slip>) =
-                    if triple { (&tx.to[i + 1], vec![&tx.to[i], &tx.to[i + 1], &tx.to[i + 2]]) } else { (s, vec![s]) };
-                i += if triple { 3 } else { 1 };
-                let unspent = group.iter().all(|g| g.amount == 0 || utxo_before.contains(&g.get_utxoset_key().to_vec()));
-                if !unspent || payload.amount == 0 {
-                    continue;
-                }
-                if !triple && payload.slip_type == SlipType::Bound {
-                    // a stray bound slip carries no value
-                    continue;
-                }
-                rep.expiring_unspent += 1;
+    let mut expected_pay_capped: u128 = 0;
+    let items = match e {
+        Some(e) => leaving_items(e, utxo_before, fpb),
+        None => vec![],
+    };
+    // the cap: total payout against 5 % of the parent's treasury
+    // value * multiplier and the sum of the payouts saturate at 2^64-1 (fix 812712b)
+    let sat = |x: u128| x.min(u64::MAX as u128);
+    let total_payout: u128 = sat(items.iter().filter(|it| sat(it.payload.amount as u128 * mult) > it.fee).map(|it| sat(it.payload.amount as u128 * mult) - it.payload.amount as u128).sum());
+    let volume: u128 = items.iter().map(|it| it.payload.amount as u128).sum();
+    let capped = total_payout > limit;
+    let capped_mult = if capped && volume > 0 { 1 + limit / volume } else { 1 };
+    if capped {
+        rep.capped = true;
+        rep.capped_factor = capped_mult;
+    }
+    rep.payout_asked = total_payout;
+    let eid = e.map(|e| e.id).unwrap_or(0);
+    for it in &items {
+        let (payload, group, triple, fee) = (it.payload, &it.group, it.triple, it.fee);
+        rep.expiring_unspent += 1;
+        if triple {
+            rep.triples += 1;
+        }
+        let a = payload.amount as u128;
+        let loc = (payload.block_id, payload.tx_ordinal, payload.slip_index);
+        let desc = format!("output {}:{}:{} amount {} of block {}", loc.0, loc.1, loc.2, a, eid);
+        // matching rebroadcast transactions: an input at the original location
+        let hits: Vec<usize> = atrs
+            .iter()
+            .enumerate()
+            .filter(|(_, t)| t.from.iter().any(|f| (f.block_id, f.tx_ordinal, f.slip_index) == loc && f.slip_type != SlipType::Bound))
+            .map(|(k, _)| k)
+            .collect();
+        if sat(a * mult) > fee {
+            if hits.len() != 1 {
+                rep.failures.push(format!("{} is handled by {} rebroadcast transactions", desc, hits.len()));
+            } else {
+                let t = atrs[hits[0]];
+                used[hits[0]] = true;
+                rep.rebroadcast += 1;
                 if triple {
-                    rep.triples += 1;
+                    rep.triples_rebroadcast += 1;
+                    let ok = t.from.len() == 3
+                        && t.to.len() == 3
+                        && t.to[0].slip_type == SlipType::Bound
+                        && t.to[2].slip_type == SlipType::Bound
+                        && t.to[0].public_key == group[0].public_key
+                        && t.to[0].amount == group[0].amount
+                        && t.to[2].public_key == group[2].public_key
+                        && t.to[2].amount == group[2].amount;
+                    if !ok {
+                        rep.failures.push(format!("the NFT group of {} does not travel together (rebroadcast has {} inputs, {} outputs)", desc, t.from.len(), t.to.len()));
+                    }
                 }
-                let a = payload.amount as u128;
-                let loc = (payload.block_id, payload.tx_ordinal, payload.slip_index);
-                let desc = format!("output {}:{}:{} amount {} of block {}", loc.0, loc.1, loc.2, a, e.id);
-                // matching rebroadcast transactions: an input at the original location
-                let hits: Vec<usize> = atrs
-                    .iter()
-                    .enumerate()
-                    .filter(|(_, t)| t.from.iter().any(|f| (f.block_id, f.tx_ordinal, f.slip_index) == loc && f.slip_type != SlipType::Bound))
-                    .map(|(k, _)| k)
-                    .collect();
-                if a * mult > fee {
-                    if hits.len() != 1 {
-                        rep.failures.push(format!("{} is handled by {} rebroadcast transactions", desc, hits.len()));
+                let expected = if capped { a * capped_mult } else { sat(a * mult) - fee };
+                let out: Vec<&Slip> = t.to.iter().filter(|o| o.slip_type == SlipType::ATR).collect();
+                if out.len() != 1 || out[0].public_key != payload.public_key {
+                    rep.failures.push(format!("{} does not reappear for the same owner", desc));
+                } else if out[0].amount as u128 != expected {
+                    rep.failures.push(if capped {
+                        format!(
+                            "{} reappears with {} instead of value * (1 + limit/volume) = {} * (1 + {}/{}) = {} (payouts {} exceed 5 % of the treasury: fee waived)",
+                            desc, out[0].amount, a, limit, volume, expected, total_payout
+                        )
                     } else {
-                        let t = atrs[hits[0]];
-                        used[hits[0]] = true;
-                        rep.rebroadcast += 1;
-                        if triple {
-                            let ok = t.from.len() == 3
-                                && t.to.len() == 3
-                                && t.to[0].slip_type == SlipType::Bound
-                                && t.to[2].slip_type == SlipType::Bound
-                                && t.to[0].public_key == group[0].public_key
-                                && t.to[0].amount == group[0].amount
-                                && t.to[2].public_key == group[2].public_key
-                                && t.to[2].amount == group[2].amount;
-                            if !ok {
-                                rep.failures.push(format!("the NFT group of {} does not travel together (rebroadcast has {} inputs, {} outputs)", desc, t.from.len(), t.to.len()));
-                            }
-                        }
-                        let out: Vec<&Slip> = t.to.iter().filter(|o| o.slip_type == SlipType::ATR).collect();
-                        if out.len() != 1 || out[0].public_key != payload.public_key {
-                            rep.failures.push(format!("{} does not reappear for the same owner", desc));
-                        } else if out[0].amount as u128 != a * mult - fee {
-                            let msg = format!(
-                                "{} reappears with {} instead of value*multiplier - fee = {}*{} - {} = {}",
-                                desc,
-                                out[0].amount,
-                                a,
-                                mult,
-                                fee,
-                                a * mult - fee
-                            );
-                            if triple && out[0].amount as u128 == a * mult {
-                                rep.known.push(("nft-rebroadcast-fee-not-deducted".to_string(), msg));
-                            } else {
-                                rep.failures.push(msg);
-                            }
-                        }
-                        expected_fees_atr += fee;
-                        if !sim.rebroadcast_seen.insert(loc) {
-                            rep.failures.push(format!("{} is rebroadcast a second time", desc));
-                        }
-                    }
-                    // the original must not be spendable any more
-                    for g in &group {
-                        if g.amount > 0 && utxo_after.contains(&g.get_utxoset_key().to_vec()) {
-                            rep.failures.push(format!("original of {} is still spendable after its rebroadcast", desc));
-                        }
-                    }
+                        format!("{} reappears with {} instead of value*multiplier - fee = {}*{} - {} = {}", desc, out[0].amount, a, mult, fee, expected)
+                    });
+                }
+                if !capped {
+                    expected_fees_atr += fee;
                 } else {
-                    rep.dust += 1;
-                    if !hits.is_empty() {
-                        rep.failures.push(format!("{} is too small to pay the fee but is rebroadcast", desc));
-                    }
-                    expected_fees_atr += a;
-                    // can it still be spent? ask the real Transaction::validate (as pool and block validation do)
-                    if let Some(owner) = sim.key_index(&payload.public_key) {
-                        let mut spend = make_tx(&[payload.clone()], &[(payload.public_key, payload.amount)], &sim.keys[owner].1, b.timestamp + 1);
-                        spend.generate(&sim.node.pk, 0, 0);
-                        let ok = std::panic::catch_unwind(AssertUnwindSafe(|| spend.validate(&sim.node.blockchain.utxoset, &sim.node.blockchain, true))).unwrap_or(false);
-                        if ok {
-                            rep.known.push((
-                                "collected-output-stays-spendable".to_string(),
-                                format!("{}: its value was collected as fees but a transaction spending it still validates", desc),
-                            ));
-                        }
-                    }
+                    expected_pay_capped += a * capped_mult - a;
+                }
+                if !sim.rebroadcast_seen.insert(loc) {
+                    rep.failures.push(format!("{} is rebroadcast a second time", desc));
+                }
+            }
+            // the original must not be spendable any more
+            for g in group {
+                if g.amount > 0 && utxo_after.contains(&g.get_utxoset_key().to_vec()) {
+                    rep.failures.push(format!("original of {} is still spendable after its rebroadcast", desc));
+                }
+            }
+        } else {
+            rep.dust += 1;
+            if triple {
+                rep.triples_dust += 1;
+            }
+            if !hits.is_empty() {
+                rep.failures.push(format!("{} is too small to pay the fee but is rebroadcast", desc));
+            }
+            expected_fees_atr += a;
+            // can it still be spent? ask the real Transaction::validate (as pool and block validation do)
+            if let Some(owner) = sim.key_index(&payload.public_key) {
+                let mut spend = make_tx(&[payload.clone()], &[(payload.public_key, payload.amount)], &sim.keys[owner].1, b.timestamp + 1);
+                spend.generate(&sim.node.pk, 0, 0);
+                let ok = std::panic::catch_unwind(AssertUnwindSafe(|| spend.validate(&sim.node.blockchain.utxoset, &sim.node.blockchain, true))).unwrap_or(false);
+                if ok {
+                    rep.failures.push(format!("{}: its value was collected as fees but a transaction spending it still validates", desc));
                 }
             }
         }
@@ -738,13 +803,343 @@ pub fn atr_oracle(
             ));
         }
     }
+    let expected_pay = if capped { expected_pay_capped } else { total_payout };
+    if b.total_payout_atr as u128 != expected_pay {
+        rep.failures.push(format!(
+            "block {} takes {} out of the treasury for rebroadcast payouts, expected {} ({})",
+            b.id,
+            b.total_payout_atr,
+            expected_pay,
+            if capped { "payout cap: sum of value * limit/volume over the rebroadcast outputs" } else { "sum of value * (multiplier - 1) over the rebroadcast outputs" }
+        ));
+    }
     if b.total_fees_atr as u128 != expected_fees_atr {
         rep.failures.push(format!(
-            "block {} collects {} as rebroadcast fees, expected {} (fees of rebroadcast outputs + value of the too-small ones)",
-            b.id, b.total_fees_atr, expected_fees_atr
+            "block {} collects {} as rebroadcast fees, expected {} ({})",
+            b.id,
+            b.total_fees_atr,
+            expected_fees_atr,
+            if capped { "payout cap: only the value of the too-small outputs" } else { "fees of rebroadcast outputs + value of the too-small ones" }
         ));
     }
     rep
+}
+
+pub fn spendable_keys(sim: &Sim) -> BTreeSet<Vec<u8>> {
+    sim.node.blockchain.utxoset.iter().filter(|(_, f)| **f).map(|(k, _)| k.to_vec()).collect()
+}
+
+/// an honest step (real Block::create, result delivered) with the C13 oracle evaluated on the
+/// accepted block; the report is None when the block was not accepted
+pub async fn atr_checked_step(sim: &mut Sim, ts: u64, gt: Option<Transaction>, txs: &[Transaction]) -> (CreateOutcome, StepResult, Option<AtrReport>, u128) {
+    let before = spendable_keys(sim);
+    let (mult, fpb) = sim.atr_params();
+    let limit = sim.payout_limit();
+    let next_id = sim.tip().id + 1;
+    let e = if next_id > sim.gp + 1 { sim.chain.iter().find(|b| b.id == next_id - sim.gp - 1).cloned() } else { None };
+    let (co, sr) = sim.honest_step(ts, gt, txs).await;
+    let rep = match (&co, &sr.add) {
+        (CreateOutcome::Ok, Some(AddClass::OnChain)) => {
+            let b = sim.tip().clone();
+            Some(atr_oracle(sim, &b, e.as_ref(), &before, mult, fpb, limit))
+        }
+        _ => None,
+    };
+    (co, sr, rep, mult)
+}
+
+/// which branches of the rebroadcast section the accepted blocks of a scenario went through
+#[derive(Default, Debug, Clone)]
+pub struct Branches {
+    /// multiplier >= 2, payouts within 5 % of the treasury: total_payout_atr > 0 without the cap
+    pub uncapped_positive: usize,
+    /// cap applied
+    pub capped: usize,
+    /// cap applied with an adjusted factor 1 + limit/volume >= 2 (the cap itself pays out)
+    pub capped_factor2: usize,
+    /// an NFT group rebroadcast under the cap
+    pub capped_nft: usize,
+    /// an NFT group rebroadcast with a positive payout, no cap
+    pub uncapped_nft: usize,
+    /// an NFT group whose payload is too small to pay the fee
+    pub nft_dust: usize,
+    pub blocks: usize,
+}
+
+impl Branches {
+    pub fn note(&mut self, b: &Block, rep: &AtrReport, mult: u128) {
+        self.blocks += 1;
+        if rep.capped {
+            self.capped += 1;
+            if rep.capped_factor >= 2 && rep.rebroadcast > 0 {
+                self.capped_factor2 += 1;
+            }
+            if rep.triples_rebroadcast > 0 {
+                self.capped_nft += 1;
+            }
+        } else if mult >= 2 && b.total_payout_atr > 0 {
+            self.uncapped_positive += 1;
+            if rep.triples_rebroadcast > 0 {
+                self.uncapped_nft += 1;
+            }
+        }
+        if rep.triples_dust > 0 {
+            self.nft_dust += 1;
+        }
+    }
+    pub fn missing(&self) -> Vec<&'static str> {
+        let mut v = vec![];
+        if self.uncapped_positive == 0 {
+            v.push("multiplier >= 2 with total_payout_atr > 0 and no cap");
+        }
+        if self.capped_factor2 == 0 {
+            v.push("5 % cap with adjusted factor >= 2");
+        }
+        if self.capped_nft == 0 {
+            v.push("NFT group rebroadcast under the 5 % cap");
+        }
+        if self.uncapped_nft == 0 {
+            v.push("NFT group rebroadcast with a positive payout without the cap");
+        }
+        if self.nft_dust == 0 {
+            v.push("NFT group whose payload is too small to pay the rebroadcast fee");
+        }
+        v
+    }
+}
+
+pub const PAYOUT_ISS: &[(usize, u64)] = &[(0, 3_000_000), (1, 3_000), (2, 5)];
+pub const PAYOUT_BLOCKS: usize = 40;
+/// the golden tickets of the scenario name the producer (key 0), so that every payout returns to
+/// the key that sweeps its outputs each block: the only outputs that leave the window are the placed ones
+pub const PAYOUT_MINER: usize = 0;
+
+/// Block k (0-based, block id k + 2) of the deterministic scenario `atr-payout-positive`
+/// (genesis period 3).  Blocks 2..21 pay large fees (the treasury fills; an NFT group with a
+/// payload of 1_000 leaves the window while the fee per byte is large: dust); afterwards the fees
+/// are tiny (the fee per byte decays).  Outputs for key 3 and NFT groups are then placed so that
+///   - a large volume (60_000) leaves the window first (multiplier 1, the average volume jumps),
+///   - a small volume with an NFT group leaves in the next block: multiplier >= 2, payouts within
+///     5 % of the treasury (total_payout_atr > 0 without the cap),
+///   - four blocks later the rebroadcast copies leave again while the average has decayed: the cap
+///     applies, for the small ones with an adjusted factor 1 + limit/volume >= 2, NFT group included.
+pub fn payout_scenario_txs(sim: &Sim, k: usize, ts: u64) -> Vec<Transaction> {
+    let fee: u64 = if k < 20 { 50_000 } else { 7 };
+    let mut sp: Vec<_> = sim.spendable().into_iter().filter(|s| s.public_key == sim.keys[0].0 && s.slip_type != SlipType::Bound).collect();
+    sp.sort_by_key(|s| std::cmp::Reverse(s.amount));
+    sp.truncate(24);
+    let mut txs = vec![];
+    let extras: Vec<(usize, u64)> = match k {
+        27 => vec![(1, 2_100)],
+        28 => vec![(3, 60_000)],
+        29 => vec![(3, 500)],
+        _ => vec![],
+    };
+    let have: u64 = sp.iter().map(|s| s.amount).sum();
+    let total: u64 = extras.iter().map(|x| x.1).sum::<u64>() + fee;
+    if !sp.is_empty() && have > total + 100_000 {
+        let mut outs = vec![(sim.keys[0].0, have - total)];
+        for (key, a) in &extras {
+            outs.push((sim.keys[*key].0, *a));
+        }
+        txs.push(make_tx(&sp, &outs, &sim.keys[0].1, ts));
+    }
+    let nft = |payload: u64, input_amount: u64| -> Option<Transaction> {
+        let inp = sim.spendable().into_iter().find(|s| s.public_key == sim.keys[1].0 && s.slip_type == SlipType::Normal && s.amount == input_amount)?;
+        Some(nft_create(sim, &inp, payload, inp.amount - payload - 10, ts))
+    };
+    match k {
+        0 => txs.extend(nft(1_000, 3_000)),
+        29 => txs.extend(nft(1_000, 2_100)),
+        _ => {}
+    }
+    txs
+}
+
+/// A fork across the window edge with the C13 oracle.  Twin nodes A and B share blocks 2..k-1
+/// (k > genesis_period + 2, so every block from here on rebroadcasts).  A adds its own block k
+/// spending an output of block k - gp (the block that block k + 1 examines); B builds a competing
+/// block k that leaves that output alone and spends another one, and a block k + 1 that
+/// rebroadcasts it.  Both are delivered to A, which reorganises.  On A afterwards: supply,
+/// in-window utxo set equal to B's, the originals rebroadcast by the winning blocks unspendable,
+/// their new outputs spendable, the outputs of the losing block gone; then A builds block k + 2
+/// (C13 oracle on it), which B must accept as well.  B's linear history goes to the model.
+pub async fn fork_history_atr(hrng: &mut Rng, gp: u64, case: usize) -> (Sim, String, Vec<String>, String) {
+    let nkeys = 4u8;
+    let issuance = gen_issuance(hrng, nkeys, false);
+    let mut a = Sim::new(gp, 8, nkeys, &issuance, 1_000_000).await;
+    let mut b = Sim::new(gp, 8, nkeys, &issuance, 1_000_000).await;
+    let shared = (gp + 2 + hrng.below(gp + 3)) as usize;
+    let desc = format!(
+        "{{\"case\":{},\"kind\":\"fork\",\"genesis_period\":{},\"shared_blocks\":{},\"issuance\":{:?}}}",
+        case,
+        gp,
+        shared,
+        issuance.iter().map(|(k, a)| vec![*k as u64, *a]).collect::<Vec<_>>()
+    );
+    let mut fails: Vec<String> = vec![];
+    let mut ok = true;
+    for i in 0..shared {
+        let ts = a.tip().timestamp + 2 * HEARTBEAT + hrng.below(5000);
+        let spendable = a.spendable();
+        let mut txs = vec![];
+        // young outputs only, so that old ones are left to be rebroadcast; two payments per block
+        let young: Vec<_> = spendable.iter().filter(|s| s.block_id + 1 >= a.tip().id).cloned().collect();
+        for j in 0..2usize {
+            if young.len() > j {
+                let k = (hrng.below(young.len() as u64) as usize + j) % young.len();
+                if txs.iter().all(|t: &Transaction| t.from[0].get_utxoset_key() != young[k].get_utxoset_key()) {
+                    txs.push(gen_payment(&a, hrng, &young[k], if i % 2 == 0 { 2 } else { 0 }, false, ts));
+                }
+            }
+        }
+        let with_gt = want_gt(&a, hrng, txs.is_empty());
+        let gt = if with_gt {
+            let parent = a.tip().clone();
+            Some(gt_tx_for(&a.node, &parent, a.keys[1].0, i as u64 * 17 + case as u64).await)
+        } else {
+            None
+        };
+        let (co, sr, rep, _m) = atr_checked_step(&mut a, ts, gt.clone(), &txs).await;
+        if co != CreateOutcome::Ok || sr.add != Some(AddClass::OnChain) {
+            fails.push(format!("honest block {} was not accepted: create {:?}, add {:?}", a.tip().id + 1, co, sr.add));
+            ok = false;
+            break;
+        }
+        if let Some(rep) = rep {
+            fails.extend(rep.failures);
+        }
+        let blk = a.tip().clone();
+        let before = spendable_keys(&b);
+        let (mult, fpb) = b.atr_params();
+        let limit = b.payout_limit();
+        let e = if blk.id > gp + 1 { b.chain.iter().find(|x| x.id == blk.id - gp - 1).cloned() } else { None };
+        let sr2 = b.step(ts, gt, &txs, CreateOutcome::NotCalled, None, Some(blk.clone())).await;
+        if sr2.add != Some(AddClass::OnChain) {
+            fails.push("the same block is accepted by one node and not by its twin".to_string());
+            ok = false;
+            break;
+        }
+        // keeps B's record of rebroadcast originals complete
+        let _ = atr_oracle(&mut b, &blk, e.as_ref(), &before, mult, fpb, limit);
+    }
+    let mut delivery = "not-reached".to_string();
+    if ok {
+        let k = a.tip().id + 1;
+        // outputs of block k - gp still unspent: block k + 1 examines them
+        let edge: Vec<Slip> = a.spendable().into_iter().filter(|s| s.block_id + gp == k).collect();
+        let other: Vec<Slip> = a.spendable().into_iter().filter(|s| s.block_id + gp > k + 1).collect();
+        let ts = a.tip().timestamp + 2 * HEARTBEAT + 700;
+        let parent = a.tip().clone();
+        // A: spends the edge output (if there is one)
+        let txa = match edge.first().or(other.first()) {
+            Some(s) => vec![gen_payment(&a, hrng, s, 2, false, ts)],
+            None => vec![],
+        };
+        let gta = gt_tx_for(&a.node, &parent, a.keys[1].0, 901).await;
+        let (_c, sra, repa, _m) = atr_checked_step(&mut a, ts, Some(gta), &txa).await;
+        ok = sra.add == Some(AddClass::OnChain);
+        if let Some(r) = repa {
+            fails.extend(r.failures);
+        }
+        let losing = a.tip().clone();
+        // B: leaves the edge output alone
+        let txb = match other.last() {
+            Some(s) => vec![gen_payment(&b, hrng, s, 2, false, ts + 11)],
+            None => vec![],
+        };
+        let gtb = gt_tx_for(&b.node, &parent, b.keys[2].0, 902).await;
+        let (_c, srb, repb, _m) = atr_checked_step(&mut b, ts + 11, Some(gtb), &txb).await;
+        ok = ok && srb.add == Some(AddClass::OnChain);
+        if let Some(r) = repb {
+            fails.extend(r.failures);
+        }
+        let mut edge_rebroadcast = false;
+        if ok {
+            let ts2 = b.tip().timestamp + 2 * HEARTBEAT + 900;
+            let gt2 = if want_gt(&b, hrng, true) { let p = b.tip().clone(); Some(gt_tx_for(&b.node, &p, b.keys[2].0, 903).await) } else { None };
+            let (_c, srb2, repb2, _m) = atr_checked_step(&mut b, ts2, gt2, &[]).await;
+            ok = srb2.add == Some(AddClass::OnChain);
+            if let Some(r) = repb2 {
+                fails.extend(r.failures);
+            }
+            if let (true, Some(es)) = (ok, edge.first()) {
+                edge_rebroadcast = b.tip().transactions.iter().any(|t| t.transaction_type == TransactionType::ATR && t.from.iter().any(|f| f.get_utxoset_key() == es.get_utxoset_key()));
+            }
+        }
+        if ok {
+            let n = b.chain.len();
+            let (bk, bk1) = (b.chain[n - 2].clone(), b.chain[n - 1].clone());
+            let r1 = futures_catch(AssertUnwindSafe(a.node.add_block(bk.clone()))).await;
+            let r2 = futures_catch(AssertUnwindSafe(a.node.add_block(bk1.clone()))).await;
+            delivery = format!("{:?}/{:?}:edge-output-{}", r1.clone().map(|c| c.code()), r2.clone().map(|c| c.code()), if edge.is_empty() { "none" } else if edge_rebroadcast { "rebroadcast-by-winner" } else { "dust-or-spent" });
+            match (r1, r2) {
+                (Ok(AddClass::OffChain), Ok(AddClass::OnChain)) => {
+                    let sa = std::panic::catch_unwind(AssertUnwindSafe(|| big_supply(&a.node))).ok().flatten();
+                    if sa != Some(a.issued) {
+                        fails.push(format!("after the reorganisation the supply is {:?} but {} was issued", sa, a.issued));
+                    }
+                    let mut ia = Interner::default();
+                    let mut ib = Interner::default();
+                    if window_utxo(&a.node, &mut ia) != window_utxo(&b.node, &mut ib) {
+                        fails.push("after the reorganisation the in-window utxo set differs from the one of a node that only saw the winning chain".to_string());
+                    }
+                    let live = spendable_keys(&a);
+                    let mut winner_outputs: BTreeSet<Vec<u8>> = BTreeSet::new();
+                    for blk in [&bk, &bk1] {
+                        for t in blk.transactions.iter().filter(|t| t.transaction_type == TransactionType::ATR) {
+                            for f in t.from.iter().filter(|f| f.amount > 0) {
+                                if live.contains(&f.get_utxoset_key().to_vec()) {
+                                    fails.push(format!("after the reorganisation the original {}:{}:{} ({}) of a rebroadcast in block {} is still spendable", f.block_id, f.tx_ordinal, f.slip_index, f.amount, blk.id));
+                                }
+                            }
+                            for o in t.to.iter().filter(|o| o.amount > 0) {
+                                winner_outputs.insert(o.get_utxoset_key().to_vec());
+                                if !live.contains(&o.get_utxoset_key().to_vec()) {
+                                    fails.push(format!("after the reorganisation the rebroadcast output {}:{}:{} ({}) of block {} is not spendable", o.block_id, o.tx_ordinal, o.slip_index, o.amount, blk.id));
+                                }
+                            }
+                        }
+                    }
+                    for t in losing.transactions.iter() {
+                        for o in t.to.iter().filter(|o| o.amount > 0) {
+                            let key = o.get_utxoset_key().to_vec();
+                            let in_winner = bk.transactions.iter().any(|t2| t2.to.iter().any(|o2| o2.get_utxoset_key().to_vec() == key));
+                            if !in_winner && live.contains(&key) {
+                                fails.push(format!("after the reorganisation output {}:{}:{} ({}) of the abandoned block {} is still spendable", o.block_id, o.tx_ordinal, o.slip_index, o.amount, losing.id));
+                            }
+                        }
+                    }
+                    // A goes on from the winning tip: block k + 2, C13 oracle on it, accepted by B as well
+                    a.chain.pop();
+                    a.chain.push(bk);
+                    a.chain.push(bk1);
+                    a.rebroadcast_seen = b.rebroadcast_seen.clone();
+                    let ts3 = a.tip().timestamp + 2 * HEARTBEAT + 500;
+                    let gt3 = if want_gt(&a, hrng, true) { let p = a.tip().clone(); Some(gt_tx_for(&a.node, &p, a.keys[1].0, 904).await) } else { None };
+                    let (co3, sr3, rep3, _m) = atr_checked_step(&mut a, ts3, gt3.clone(), &[]).await;
+                    if co3 != CreateOutcome::Ok || sr3.add != Some(AddClass::OnChain) {
+                        fails.push(format!("after the reorganisation the node cannot extend the winning chain: create {:?}, add {:?} {}", co3, sr3.add, sr3.panic_msg.clone().unwrap_or_default()));
+                    } else {
+                        if let Some(r) = rep3 {
+                            fails.extend(r.failures);
+                        }
+                        let blk = a.tip().clone();
+                        let sr4 = b.step(ts3, gt3, &[], CreateOutcome::NotCalled, None, Some(blk)).await;
+                        if sr4.add != Some(AddClass::OnChain) {
+                            fails.push(format!("the block built after the reorganisation is not accepted by a node that only saw the winning chain: {:?}", sr4.add));
+                        }
+                    }
+                }
+                (r1, r2) => {
+                    fails.push(format!("fork delivery: sibling {:?}, its child {:?} (expected off-chain, then on-chain)", r1, r2));
+                }
+            }
+        } else {
+            fails.push("coverage: the fork history could not be built (a branch block was not accepted)".to_string());
+        }
+    }
+    (b, desc, fails, delivery)
 }
 
 /// spendable entries older than the window (they can no longer be rebroadcast)
